@@ -133,8 +133,8 @@ def load_module(hashed_grammar, file_io, cache_path=None):
 
 
 def _load_from_file_system(hashed_grammar, path, p_time, cache_path=None):
-    cache_path = _get_hashed_path(hashed_grammar, path, cache_path=cache_path)
     try:
+        cache_path = _get_hashed_path(hashed_grammar, path, cache_path=cache_path)
         if p_time > os.path.getmtime(cache_path):
             # Cache is outdated
             return None
@@ -145,7 +145,9 @@ def _load_from_file_system(hashed_grammar, path, p_time, cache_path=None):
                 module_cache_item = pickle.load(f)
             finally:
                 gc.enable()
-    except FileNotFoundError:
+    except Exception:
+        # A missing, unreadable, truncated or otherwise corrupt cache file is
+        # simply a cache miss (unpickling garbage can raise nearly anything).
         return None
     else:
         _set_cache_item(hashed_grammar, path, module_cache_item)
@@ -190,8 +192,15 @@ def try_to_save_module(hashed_grammar, file_io, module, lines, pickling=True, ca
                 'Tried to save a file to %s, but got permission denied.' % path,
                 Warning
             )
+        except (OSError, pickle.PicklingError, RecursionError):
+            # Same here (e.g. disk full, directory vanished): not being able
+            # to write the cache must never make parsing fail.
+            pass
         else:
-            _remove_cache_and_update_lock(cache_path=cache_path)
+            try:
+                _remove_cache_and_update_lock(cache_path=cache_path)
+            except OSError:
+                pass
 
 
 def _save_to_file_system(hashed_grammar, path, item, cache_path=None):
